@@ -98,6 +98,7 @@ class Index:
         self.rec_of_method = {}
         self._file = None
         self._line = None
+        self.ctx_path = {}       # decl-context id -> qualified path (list)
         self._walk_decl(root, [], None, False)
 
     def _fix_loc(self, loc):
@@ -155,12 +156,15 @@ class Index:
         if "id" in n:
             self.by_id[n["id"]] = n
         nm = n.get("name", "")
-        if k in ("TypedefDecl", "TypeAliasDecl") and not path and "type" in n:
-            self.typedefs[nm] = n["type"].get("desugaredQualType", n["type"]["qualType"])
+        if "parentDeclContextId" in n and n["parentDeclContextId"] in self.ctx_path:
+            path = self.ctx_path[n["parentDeclContextId"]]      # out-of-line / explicit instantiation
+        if k in ("TypedefDecl", "TypeAliasDecl") and "type" in n and not skip:
+            self.typedefs["::".join(path + [nm])] = n["type"].get("desugaredQualType", n["type"]["qualType"])
         if k in ("TranslationUnitDecl", "LinkageSpecDecl"):
             for c in n.get("inner", []):
                 self._walk_decl(c, path, rec, skip)
         elif k == "NamespaceDecl":
+            self.ctx_path[n.get("id")] = path + [nm] if nm else path
             for c in n.get("inner", []):
                 self._walk_decl(c, path + [nm] if nm else path, rec, skip)
         elif k in ("ClassTemplateDecl", "FunctionTemplateDecl"):
@@ -178,6 +182,7 @@ class Index:
                 q = nm + "<" + ", ".join(self.targs(n)) + ">"
             sk = skip or k == "ClassTemplatePartialSpecializationDecl"
             p2 = path + [q] if nm else path
+            self.ctx_path[n.get("id")] = p2
             if not sk and nm and n.get("completeDefinition"):
                 self.records["::".join(p2)] = n
             for c in n.get("inner", []):
@@ -841,12 +846,22 @@ class FnTranslator:
             if not s.get("inner"):
                 return [self.result(None)]
             e = s["inner"][0]
-            x = e
+            # `return [casts] (c ? a : b)` is translated as `if (c) return [casts] a; else return [casts] b;`
+            x, wrappers = e, []
+            while x.get("kind") in ("ParenExpr", "ImplicitCastExpr", "CStyleCastExpr", "CXXStaticCastExpr", "CXXFunctionalCastExpr") \
+                    and x.get("castKind", "NoOp") in ("NoOp", "IntegralCast", "IntegralToBoolean"):
+                wrappers.append(x)
+                x = x["inner"][-1]
             if x.get("kind") == "ConditionalOperator":
                 c, a, b = x["inner"]
+
+                def rewrap(y):
+                    for w in reversed(wrappers):
+                        y = dict(w, inner=[y])
+                    return y
                 pre, ct = self.full_expr(c)
-                la = self.with_branch(lambda: self.stmt({"kind": "ReturnStmt", "inner": [a]}, None))
-                lb = self.with_branch(lambda: self.stmt({"kind": "ReturnStmt", "inner": [b]}, None))
+                la = self.with_branch(lambda: self.stmt({"kind": "ReturnStmt", "inner": [rewrap(a)]}, None))
+                lb = self.with_branch(lambda: self.stmt({"kind": "ReturnStmt", "inner": [rewrap(b)]}, None))
                 return pre + self.ite(ct, la, lb)
             pre, t = self.full_expr(e)
             return pre + [self.result(t)]
@@ -998,8 +1013,8 @@ class FnTranslator:
             return int(e["value"])
         if k == "ConstantExpr" and "value" in e:
             return int(e["value"])
-        if k in ("ParenExpr",):
-            return self.const_eval(e["inner"][0])
+        if k in ("ParenExpr", "SubstNonTypeTemplateParmExpr"):
+            return self.const_eval(e["inner"][-1])
         if k in ("ImplicitCastExpr", "CStyleCastExpr", "CXXStaticCastExpr", "CXXFunctionalCastExpr"):
             ck = e.get("castKind")
             v = self.const_eval(e["inner"][-1])
@@ -1082,6 +1097,8 @@ class FnTranslator:
         k = e.get("kind")
         if k in ("ParenExpr", "ExprWithCleanups"):
             return self.ex(e["inner"][0], stmt)
+        if k == "SubstNonTypeTemplateParmExpr":        # a template argument substituted for its parameter
+            return self.ex(e["inner"][-1], stmt)
         if k == "ConstantExpr":
             if "value" in e and self.u.ty(e).kind == "int":
                 return lit(int(e["value"]))
@@ -1192,10 +1209,10 @@ class FnTranslator:
                 v &= (1 << t.bits) - 1
                 return v - (1 << t.bits) if v > hi else v
             self.bad(e, "constant expression: cast kind %s" % ck)
-        if k in ("ParenExpr", "ConstantExpr"):
+        if k in ("ParenExpr", "ConstantExpr", "SubstNonTypeTemplateParmExpr"):
             if k == "ConstantExpr" and "value" in e:
                 return int(e["value"])
-            return self.const_eval_deep(e["inner"][0])
+            return self.const_eval_deep(e["inner"][-1])
         if k == "IntegerLiteral":
             return int(e["value"])
         if k == "UnaryExprOrTypeTraitExpr" and e.get("name") == "sizeof":
@@ -1643,7 +1660,7 @@ class FnTranslator:
 # --------------------------------------------------------------------------------------------------
 
 def load_units():
-    with open(os.path.join(HERE, "units.json")) as f:
+    with open(os.environ.get("CXX2V_UNITS", os.path.join(HERE, "units.json"))) as f:
         return json.load(f)["units"]
 
 
